@@ -86,6 +86,75 @@ func (e *c19env) intr() {
 	e.cancel()
 }
 
+// genC19Composed builds a program by composing the language's control
+// constructs at random (depth <= 2, thorough 3): loops, each over lists and pipes,
+// try/catch/finally, function definition and call, output capture, lambda
+// call, if/else, peach, run-parallel, with uniquely labelled ticks as the
+// observable pipelines and at most one in-program interrupt. The oracle's
+// rules are the same for every program.
+func genC19Composed(w *simrt.Tape, wantIntr bool, maxDepth int) (string, bool) {
+	lbl := 0
+	hasIntr := false
+	tick := func() string { lbl++; return fmt.Sprintf("vt T%d", lbl) }
+	var stmts func(depth int) string
+	stmt := func(depth int) string {
+		k := w.Draw(15)
+		if depth >= maxDepth && k >= 3 {
+			k = w.Draw(3)
+		}
+		n := w.Range(1, 3)
+		switch k {
+		case 0, 1:
+			return tick()
+		case 2:
+			if wantIntr && !hasIntr && w.Chance(1, 2) {
+				hasIntr = true
+				return "vintr"
+			}
+			return tick()
+		case 3:
+			return fmt.Sprintf("for i [(range %d)] { %s }", n, stmts(depth+1))
+		case 4:
+			return fmt.Sprintf("each {|x| %s } [(range %d)]", stmts(depth+1), n)
+		case 5:
+			return fmt.Sprintf("range %d | each {|x| %s }", n, stmts(depth+1))
+		case 6:
+			return fmt.Sprintf("try { %s } finally { %s }", stmts(depth+1), stmts(depth+1))
+		case 7:
+			return fmt.Sprintf("try { %s } catch e { %s }", stmts(depth+1), stmts(depth+1))
+		case 8:
+			lbl++
+			return fmt.Sprintf("fn g%d { %s }; g%d", lbl, stmts(depth+1), lbl)
+		case 9:
+			lbl++
+			return fmt.Sprintf("var v%d = (%s; put x)", lbl, stmts(depth+1))
+		case 10:
+			return fmt.Sprintf("{ %s }", stmts(depth+1))
+		case 11:
+			return fmt.Sprintf("if (eq %d 1) { %s } else { %s }", n, stmts(depth+1), stmts(depth+1))
+		case 12:
+			return fmt.Sprintf("peach {|x| %s } [(range %d)]", stmts(depth+1), n)
+		case 13:
+			return fmt.Sprintf("run-parallel { %s } { %s }", stmts(depth+1), stmts(depth+1))
+		default:
+			return fmt.Sprintf("%s | each {|x| %s }", "put (range "+fmt.Sprint(n)+")", stmts(depth+1))
+		}
+	}
+	stmts = func(depth int) string {
+		n := w.Range(1, 3)
+		var parts []string
+		for i := 0; i < n; i++ {
+			parts = append(parts, stmt(depth))
+		}
+		return strings.Join(parts, "; ")
+	}
+	code := stmts(0)
+	if lbl == 0 {
+		code += "; " + tick()
+	}
+	return code, hasIntr
+}
+
 func genC19Prog(c *Ctx) c19prog {
 	w := c.T.Workload
 	n := w.Range(1, 6)
@@ -96,6 +165,14 @@ func genC19Prog(c *Ctx) c19prog {
 	intr := ""
 	if w.Chance(1, 3) {
 		intr = "vintr; "
+	}
+	if w.Chance(1, 4) {
+		maxDepth := 2
+		if c.Thorough() {
+			maxDepth = 3
+		}
+		code, hasIntr := genC19Composed(w, intr != "", maxDepth)
+		return c19prog{Name: "composed", Code: code, Intr: hasIntr}
 	}
 	switch w.Draw(22) {
 	case 0:
